@@ -79,6 +79,42 @@ def run(ctx):
         if r[0] != "ok" or not close(r[1], prod):
             ctx.violation("oracle", {"call": "bernoulli_lh_ratio", "x": x, "po": po, "pa": pa, "returned": r[1:], "expected": prod}, site="bernoulli_lh_ratio")
         ops.append(f"bernlr|{rat(po)}|{rat(pa)}|{ints(x)}"); meta.append((("lrm", po, pa, tuple(x)), r[1] if r[0] == "ok" else None, None))
+    # ---- long samples: the closed form must still be the product of per-observation ratios, and sprt must not
+    #      decide where every exact prefix ratio stays inside (A, B)
+    for _ in range(ctx.n(25, 250)):
+        po, pa = ctx.rng.choice([(Fr(1, 2), Fr(5, 8)), (Fr(1, 2), Fr(3, 8)), (Fr(1, 2), Fr(9, 16)), (Fr(3, 8), Fr(1, 2))])
+        n = ctx.rng.choice([200, 600, 990, ctx.rng.randint(995, 1015)])
+        ones = max(0, min(n, int(n * float((po + pa) / 2)) + ctx.rng.randint(-8, 8)))
+        x = [1] * ones + [0] * (n - ones); ctx.rng.shuffle(x)
+        s = sum(x)
+        num = pa ** s * (1 - pa) ** (n - s); den = po ** s * (1 - po) ** (n - s)
+        if min(num, den) < Fr(1, 10**305):      # would underflow in doubles: outside what doubles can represent
+            continue
+        r = guarded(S.bernoulli_lh_ratio, np.array(x), float(po), float(pa))
+        ctx.case(("long-lr", po, pa, n, s), True); ctx.count("long-samples")
+        if r[0] != "ok" or not close(r[1], num / den, rel=1e-7):
+            ctx.violation("oracle", {"call": "bernoulli_lh_ratio", "po": po, "pa": pa, "length": n, "ones": s, "returned": str(r[1:])[:100],
+                                     "expected": float(num / den), "issue": "not the product over observations of (pa/po)^x ((1-pa)/(1-po))^(1-x) on a long sample"}, site="bernoulli_lh_ratio")
+            continue
+        if ctx.rng.random() < 0.4:
+            al = be = Fr(1, 20)
+            lrf = lambda xx, po=po, pa=pa: S.bernoulli_lh_ratio(np.array(xx), float(po), float(pa)) if len(xx) else 1.0
+            rr = guarded(S.sprt, lrf, float(al), float(be), x, True, secs=120)
+            # exact first exit
+            A, B = be / (1 - al), (1 - be) / al
+            ratio = Fr(1); want = None; near = False
+            for k, b in enumerate(x):
+                ratio *= (pa / po) if b else ((1 - pa) / (1 - po))
+                near |= any(abs(ratio - t) <= Fr(1, 10**9) * t for t in (A, B))
+                if not (A < ratio < B):
+                    want = ([ratio >= B, ratio <= A and not ratio >= B], ratio); break
+            if want is None:
+                want = ([False, False], ratio)
+            ctx.count("long-sprt")
+            if not near and (rr[0] != "ok" or list(rr[1][0]) != list(want[0]) or not close(rr[1][1], want[1], rel=1e-7)):
+                ctx.violation("oracle", {"call": "sprt", "lr": "bernoulli", "po": po, "pa": pa, "alpha": al, "beta": be, "length": n, "x_ones": s,
+                                         "returned": str(rr[1:])[:120], "expected": [want[0], float(want[1])],
+                                         "issue": "long sample: decision / ratio differ from the first-exit rule on exact prefix ratios"}, site="sprt")
     # ---- table look-up ratio functions (exact dyadics; thresholds exactly representable)
     grids = [(Fr(1, 2), Fr(1, 4)), (Fr(1, 4), Fr(1, 2)), (Fr(1, 20), Fr(1, 20))]
     for _ in range(ctx.n(400, 6000)):
